@@ -302,32 +302,48 @@ def clamps(ctx, obs, rule='CLAMP'):
     prog = ctx.prog
     q = N + '_covariance_diag'
     f = prog.func(q)
-    body = f.node.body
-    cl = None
-    use = None
-    for i, s in enumerate(body):
-        if isinstance(s, ast.Assign) and isinstance(s.targets[0], ast.Name):
-            v = s.value
-            name = s.targets[0].id
-            is_clamp = (isinstance(v, ast.Call) and _leaf(v.func) in ('max', 'min', 'clip', 'maximum', 'minimum')
-                        and any(isinstance(x, ast.Name) and x.id == name for x in ast.walk(v)))
-            if is_clamp and cl is None:
-                lo = any(isinstance(x, ast.Constant) and x.value == 0 for x in ast.walk(v))
-                hi = any(isinstance(x, ast.Constant) and x.value == 1 for x in ast.walk(v))
-                cl = (i, name, lo and hi, s)
-        if cl is not None and use is None and i > cl[0] and any(isinstance(x, ast.Name) and x.id == cl[1] for x in ast.walk(s)):
-            use = i
-    if cl is None:
-        obs.bad(rule, q, 'the shrinkage intensity is clamped to [0, 1]', 'no clamp of the intensity before it scales the estimate',
-                where(prog, f, f.node))
-    else:
-        obs.check(cl[2], rule, q, 'the shrinkage intensity is clamped to [0, 1]', f'`{norm(cl[3])}` does not bound both sides', '',
-                  where(prog, f, cl[3]))
-        early = [i for i, s in enumerate(body[:cl[0]]) if isinstance(s, ast.Assign) and any(
-            isinstance(x, ast.BinOp) and isinstance(x.op, ast.Mult) and any(isinstance(y, ast.Name) and y.id == cl[1] for y in ast.walk(x))
-            for x in ast.walk(s.value)) and not (isinstance(s.targets[0], ast.Name) and s.targets[0].id == cl[1])]
-        obs.check(not early, rule, q, 'the clamp precedes every use of the intensity as a scale', 'intensity is used before it is clamped',
-                  '', where(prog, f, cl[3]))
+    # dataflow form: every `1 - L` (the weight left for the sample covariance) uses an intensity L all of whose reaching definitions
+    # are clamps to [0, 1]: max(min(x, 1), 0) / min(max(x, 0), 1) / np.clip(x, 0, 1)
+    from ..rules.common import Inliner
+    r = ctx.dep.result(q)
+    inl = Inliner(r, None, ())
+    con = 'the shrinkage intensity is clamped to [0, 1]'
+
+    def alternatives(e):
+        if isinstance(e, ast.Call) and isinstance(e.func, ast.Name) and e.func.id == 'PHI':
+            out = []
+            for a_ in e.args:
+                out += alternatives(a_)
+            return out
+        return [e]
+
+    def is_clamp(e):
+        if not isinstance(e, ast.Call):
+            return False
+        names = {_leaf(c.func) for c in ast.walk(e) if isinstance(c, ast.Call)}
+        consts = {x.value for x in ast.walk(e) if isinstance(x, ast.Constant) and isinstance(x.value, (int, float))}
+        top = _leaf(e.func)
+        if top == 'clip':
+            return {0, 1} <= consts
+        if top in ('max', 'maximum'):
+            return 0 in consts and bool(names & {'min', 'minimum'}) and 1 in consts
+        if top in ('min', 'minimum'):
+            return 1 in consts and bool(names & {'max', 'maximum'}) and 0 in consts
+        return False
+    uses = [x for x in ast.walk(f.node) if isinstance(x, ast.BinOp) and isinstance(x.op, ast.Sub) and isinstance(x.left, ast.Constant)
+            and x.left.value == 1 and isinstance(x.right, ast.Name)]
+    if not uses:
+        obs.unk(rule, q, con, 'no `1 - <intensity>` weight found', where(prog, f, f.node))
+    for u in uses:
+        alts = alternatives(inl.inline(u.right))
+        if all(is_clamp(a_) for a_ in alts):
+            obs.ok(rule, q, con, f'`{norm(u)}`', where(prog, f, u))
+        elif any(isinstance(a_, (ast.BinOp, ast.Call)) and not is_clamp(a_) for a_ in alts):
+            wrong = [a_ for a_ in alts if not is_clamp(a_)][0]
+            obs.bad(rule, q, con, f'the intensity in `{norm(u)}` is `{ast.unparse(wrong)[:70]}` on some path: not bounded to [0, 1], the '
+                    f'off-diagonal weight can leave [0, 1]', where(prog, f, u))
+        else:
+            obs.unk(rule, q, con, f'`{norm(u)}`: intensity is `{ast.unparse(alts[0])[:60]}`', where(prog, f, u))
     q = N + '_covariance_eye'
     f = prog.func(q)
     ok = False
